@@ -7,7 +7,7 @@
    are NOT provable here (they need the root of x = 5(1 - exp(-x)) and zeta(4)); they are numeric
    tests, labelled as tests, in harness/props/c14.py:extra. *)
 From Coq Require Import Reals.
-From LV Require Import Lib.Base Model.UnitsBase Gen.UnitTable Model.Units Proofs.UnitsP.
+From LV Require Import Lib.Base Model.UnitsBase Gen.UnitTable Model.Units Proofs.UnitsP Proofs.UnitsStateP.
 
 (* (a) all 64 ordered triples of wavelength units (finite, decided by computation in Q):
    A->B->C is A->C, A->A is 1, every round trip is 1, every factor is positive *)
@@ -151,6 +151,54 @@ Theorem C14_vegaflux_unit_independent :
 Proof. exact vegaflux_spec. Qed.
 Print Assumptions C14_vegaflux_unit_independent.
 
+(* ---- deepen: refusals of Spectrum.to and the state of the object ----
+   One argument of Spectrum.to, complete case analysis, for EVERY carrier (no field law is used):
+   ValueError exactly for a name that is none of m/um/nm/angstrom/photlam/flam/wlam; TypeError exactly for a
+   flux name on a spectrum without value unit; no other exception; an accepted wavelength unit sets the wave
+   unit, keeps the value unit and the number of values and multiplies the wavelengths by the table factor; an
+   accepted flux unit sets the value unit and keeps wave unit and wavelengths. *)
+Theorem C14_to_outcome :
+  forall (K : Fld) (cH cC : K) (s : spectrum K) (n : uname),
+  match to1 K cH cC s n with
+  | Err e =>
+      (e = ValueError /\ ~ In n [NM; NUm; NNm; NAngstrom; NPhotlam; NFlam; NWlam])
+      \/ (e = TypeError /\ In n [NPhotlam; NFlam; NWlam] /\ s_vu K s = None)
+  | Ok s' =>
+      (exists b, n = wname b /\ s_wu K s' = b /\ s_vu K s' = s_vu K s
+                 /\ s_wave K s' = scale K (wf K (s_wu K s) b) (s_wave K s)
+                 /\ length (s_value K s') = length (s_value K s))
+      \/ (exists g a, n = fname g /\ s_vu K s = Some a /\ s_vu K s' = Some g
+                      /\ s_wu K s' = s_wu K s /\ s_wave K s' = s_wave K s)
+  end.
+Proof. exact to1_outcome. Qed.
+Print Assumptions C14_to_outcome.
+
+(* Spectrum.to with several arguments, as it leaves the object ([to_st]: the loop with the wave setter's
+   re-validation): either every argument was accepted and the object is the result of the whole chain, or the
+   call raised e at the first refused argument n and the object holds exactly the conversions of the arguments
+   before n - nothing of n, nothing of the arguments after it *)
+Theorem C14_to_state_after_refusal :
+  forall (K : Fld) (cH cC : K) (leb : K -> K -> bool) (args : list uname) (s s1 : spectrum K) (o : option errkind),
+  to_st K cH cC leb s args = (s1, o) ->
+  match o with
+  | None => toc K cH cC leb s args = Ok s1
+  | Some e => exists pre n post, args = pre ++ n :: post /\ toc K cH cC leb s pre = Ok s1
+                                 /\ to1c K cH cC leb s1 n = Err e /\ toc K cH cC leb s args = Err e
+  end.
+Proof. exact to_st_spec. Qed.
+Print Assumptions C14_to_state_after_refusal.
+
+(* over the reals: a well-formed spectrum (wavelengths > 0 and strictly increasing, as many values as
+   wavelengths - what the constructor demands) stays well-formed under every accepted conversion, so the wave
+   setter's re-validation inside Spectrum.to never raises and the checked loop is the plain one *)
+Theorem C14_to_keeps_wellformed :
+  forall (H C : R) (args : list uname) (s s' : spectrum RF),
+  wellformed s ->
+  toc RF H C Rleb s args = to RF H C s args
+  /\ (toc RF H C Rleb s args = Ok s' -> wellformed s').
+Proof. intros H C args s s' W. exact (conj (toc_is_to H C args s W) (toc_keeps_wellformed H C args s s' W)). Qed.
+Print Assumptions C14_to_keeps_wellformed.
+
 (* non-vacuity: the constants of the source satisfy H*C <> 0, a concrete density spectrum in nm
    converts to um with wavelengths / 1000, values * 1000 and the same integral (= 30), and a
    flux conversion with those constants is not the identity *)
@@ -164,10 +212,20 @@ Example C14_nonvacuous :
       | Err _ => None
       end = Some ([2 # 5; 1 # 2; 13 # 20], [100 # 1; 200 # 1; 0 # 1], Wum, Some Fflam, 30 # 1))%Q
   /\ this (trapz QcF [Q2Qc 400; Q2Qc 500; Q2Qc (1300 # 2)] [Q2Qc (1 # 10); Q2Qc (1 # 5); Q2Qc 0]) = (30 # 1)%Q
-  /\ this (flux_conv QcF (Q2Qc const_H) (Q2Qc const_C) Fflam Fphotlam (Q2Qc 1) (Q2Qc 1)) <> (1 # 1)%Q.
+  /\ this (flux_conv QcF (Q2Qc const_H) (Q2Qc const_C) Fflam Fphotlam (Q2Qc 1) (Q2Qc 1)) <> (1 # 1)%Q
+  (* a refused chain: 'um' accepted, 'furlong' refused with ValueError, 'nm' never applied: the object is left in um *)
+  /\ (let '(s1, o) := to_st QcF (Q2Qc const_H) (Q2Qc const_C) (fun x y => Qle_bool (this x) (this y))
+                        (mkSpec QcF [Q2Qc 400; Q2Qc 500] [Q2Qc 1; Q2Qc 2] Wnm (Some Fflam)) [NUm; NOther; NNm] in
+      (map this (s_wave QcF s1), map this (s_value QcF s1), s_wu QcF s1, o))
+     = ([2 # 5; 1 # 2], [1000 # 1; 2000 # 1], Wum, Some ValueError)%Q
+  /\ to_st QcF (Q2Qc const_H) (Q2Qc const_C) (fun x y => Qle_bool (this x) (this y))
+        (mkSpec QcF [Q2Qc 400; Q2Qc 500] [Q2Qc 1; Q2Qc 2] Wnm None) [NPhotlam]
+     = (mkSpec QcF [Q2Qc 400; Q2Qc 500] [Q2Qc 1; Q2Qc 2] Wnm None, Some TypeError).
 Proof.
   split; [exact source_constants_ok|].
   split; [vm_compute; reflexivity|].
   split; [vm_compute; reflexivity|].
-  vm_compute. discriminate.
+  split; [vm_compute; discriminate|].
+  split; [vm_compute; reflexivity|].
+  reflexivity.
 Qed.
